@@ -126,6 +126,24 @@ def run(replay=None):
         why = seq_oracle(r)
         if why:
             ck.impl_violation("seq:" + why.split(" ")[0], "sequential history: " + why, r)
+    # the fallback inside Acquire, with the mapping refused by the kernel (own process: a fault is an observation)
+    fobs = os.path.join(ck.wd, "fallback.jsonl")
+    rcf, outf = vlib.run_hx(hx, ["c20", "-extra", "fallback", "-out", fobs], timeout=300)
+    frows = vlib.read_jsonl(fobs) if os.path.exists(fobs) else []
+    fb = [r for r in frows if r["kind"] == "fallback"]
+    if rcf != 0:
+        last = [r for r in frows if r["kind"] == "fallback-about"]
+        ck.impl_violation("fallback:crash", "with the mapping refused, the region Acquire hands out cannot be written / executed: the process dies (exit %d) at %s" % (
+            rcf, last[-1] if last else "?"), {"tail": outf[-500:], "last": last[-1] if last else None})
+    for r in fb:
+        if r.get("skipped") or r.get("err"):
+            continue
+        ck.coverage["evaluations"] += 1
+        if r.get("exec"):
+            ck.impl_violation("fallback:" + r["exec"].split(":")[0], "Acquire(%d) with the mapping refused: %s" % (r["n"], r["exec"]), r)
+        if r["in_reserve"] and r["typ"] != 1:
+            ck.impl_violation("fallback:wrong-kind", "Acquire(%d) with the mapping refused returns a region of the reserve tagged as a private mapping" % r["n"], r)
+    ck.notes["fallback_probes"] = {"ran": len([r for r in fb if not r.get("skipped")]), "skipped": len([r for r in fb if r.get("skipped")])}
     for r in rows:
         if r["kind"] == "dispatch":
             n = r["n"]
